@@ -263,10 +263,27 @@ type caseC18 struct {
 
 const maxProbeLen = 65536
 
-func passthroughProbe(w *world.World, ch int, n int) kit.Transfer {
+// passthroughProbe: content "count" = bytes 0,1,2,... (the last byte is zero when n%256 == 1),
+// "nonzero" = no zero byte at all, "zeros" = only zero bytes, "zero-tail" = data followed by a run
+// of zero bytes (what right-padding to a word size produces): the limit bounds the LENGTH.
+func passthroughProbe(w *world.World, ch int, n int, content ...string) kit.Transfer {
 	pt := make([]byte, n)
+	kind := "count"
+	if len(content) > 0 {
+		kind = content[0]
+	}
 	for i := range pt {
-		pt[i] = byte(i)
+		switch kind {
+		case "nonzero":
+			pt[i] = byte(i) | 1
+		case "zeros":
+		case "zero-tail":
+			if i < n/2 {
+				pt[i] = byte(i) | 1
+			}
+		default:
+			pt[i] = byte(i)
+		}
 	}
 	return kit.Transfer{Channel: ch, Denom: world.Ufoo, Amount: "1000",
 		Route: kit.Route{Kind: "internal", To: world.Addr("alice").String(), Passthrough: pt}}
@@ -295,11 +312,11 @@ func runC18(w *world.World, c caseC18, rec *kit.Recorder) error {
 			lengths = append(lengths, maxProbeLen)
 		}
 		lengths = append(lengths, 1, 2*limit+7)
-		for _, n := range lengths {
+		for li, n := range lengths {
 			if n > maxProbeLen+1 {
 				continue
 			}
-			tr := passthroughProbe(w, 1, n)
+			tr := passthroughProbe(w, 1, n, []string{"count", "zeros", "nonzero", "zero-tail"}[(n+li)%4])
 			// built WITHOUT the module's validating constructors: the probe is what a sender
 			// writes into a memo, and only the receive path may judge it
 			p, err := kit.BuildPacket(w.Cdc, tr, false)
@@ -392,7 +409,7 @@ func TestC18History(t *testing.T) {
 		Packet: func(rt *rapid.T) kit.Transfer { return genC08Probe(rt, w) },
 		Admin:  kit.AdminOpt{Kinds: []string{"update_params"}, ForeignSignerPct: 15},
 		// the chain moves on, and is upgraded in place (the module's registered migrations run)
-		Env: kit.EnvOpt{Kinds: []string{"next_block", "upgrade", "upgrade"}},
+		Env: kit.EnvOpt{Kinds: []string{"next_block", "upgrade", "upgrade", "exec_mode"}},
 	}
 	rapid.Check(t, func(rt *rapid.T) {
 		c := caseC18{History: kit.GenHistory(rt, opt)}
